@@ -2,7 +2,7 @@ SPECIFICATION Spec
 CONSTANTS
   NG = 3
   MaxCalls = 1
-  ShapeNames <- DomainShapes
+  ShapeNames <- CoreShapes
   AllowReg = FALSE
   CopyOpts = TRUE
   TightCap = TRUE
